@@ -326,7 +326,9 @@ func revListFlagsOK(flags []string) bool {
 	for _, f := range flags {
 		switch f {
 		case "--objects", "--stdin", "--date-order", "--topo-order", "--author-date-order",
-			"--use-bitmap-index", "--reverse":
+			"--use-bitmap-index", "--reverse",
+			// the model repository has no promisor packs and no missing objects to tolerate
+			"--exclude-promisor-objects":
 			seen[f] = true
 		default:
 			return false
